@@ -24,6 +24,7 @@ type tagBackend struct {
 	eof     bool
 	conns   []net.Conn
 	pace    time.Duration // pause between the backend's writes
+	piece   int           // bytes per write (0: 1000)
 }
 
 func newTagBackend(sends []byte) *tagBackend {
@@ -42,8 +43,12 @@ func newTagBackend(sends []byte) *tagBackend {
 			go func() {
 				if len(b.sends) > 0 {
 					// several writes so that the relay sees several reads
-					for off := 0; off < len(b.sends); off += 1000 {
-						end := off + 1000
+					piece := b.piece
+					if piece == 0 {
+						piece = 1000
+					}
+					for off := 0; off < len(b.sends); off += piece {
+						end := off + piece
 						if end > len(b.sends) {
 							end = len(b.sends)
 						}
@@ -226,6 +231,107 @@ func streamC07(env *runEnv) {
 		}
 		caseN++
 	}
+	// bulk isolation: every host streams megabytes of its own tag at once while some clients read
+	// slowly (their writes stall inside the gateway); every byte a client gets must be its own host's
+	{
+		nb := 4
+		size := 24 << 20
+		if env.thorough() {
+			nb, size = 8, 48<<20
+		}
+		var backends []*tagBackend
+		for i := 0; i < nb; i++ {
+			tag := fmt.Sprintf("<bulk-%d-%d>", env.seed, i)
+			sz := size
+			nbk := newTagBackend([]byte(strings.Repeat(tag, sz/len(tag))))
+			nbk.piece = 65536 // full-size relay packets
+
+			backends = append(backends, nbk)
+		}
+		type bulkRes struct {
+			n       int
+			verdict string
+		}
+		res := make([]bulkRes, nb)
+		var wg sync.WaitGroup
+		for i := 0; i < nb; i++ {
+			wg.Add(1)
+			go func(i int) {
+				defer wg.Done()
+				b := backends[i]
+				slow := i%2 == 0
+				transport := []string{"ws", "legacy"}[i%2]
+				if slow {
+					transport = []string{"legacy", "ws"}[(i/2)%2]
+				}
+				host, port := splitHostPort(b.addr)
+				c, err := openTunnel(srv.inst, tunnelScript{transport: transport, id: fmt.Sprintf("{c07-bulk-%d-%d}", env.seed, i)})
+				if err != nil {
+					res[i] = bulkRes{0, "ERR:" + err.Error()}
+					return
+				}
+				defer c.close()
+				if slow {
+					// a small receive buffer: the gateway's writes to this client stall soon
+					switch cc := c.(type) {
+					case *wsConn:
+						if tc, ok := cc.c.(*net.TCPConn); ok {
+							tc.SetReadBuffer(65536)
+						}
+					case *legacyConn:
+						if tc, ok := cc.out.(*net.TCPConn); ok {
+							tc.SetReadBuffer(65536)
+						}
+					}
+				}
+				for _, p := range [][]byte{
+					packet(ptHandshake, handshakeBody(1, 0, 0, 2)),
+					packet(ptTunnelCreate, tunnelCreateBody(0, fmt.Sprintf("ok|bulk%d|%s", i, b.addr), true)),
+					packet(ptTunnelAuth, tunnelAuthBody("pc")),
+					packet(ptChannelCreate, channelCreateBody(host, port)),
+				} {
+					c.send(p)
+					if transport == "legacy" {
+						time.Sleep(15 * time.Millisecond)
+					}
+				}
+				got := 0
+				verdict := "own-bytes-only"
+				deadline := time.Now().Add(20 * time.Second)
+				for got < len(b.sends) && time.Now().Before(deadline) {
+					m, err := c.recv(4 * time.Second)
+					if err != nil {
+						verdict = "stream-ended-early"
+						break
+					}
+					if len(m) < 8 || int(m[0])|int(m[1])<<8 != ptData {
+						continue
+					}
+					body := m[8:]
+					if len(body) < 2 || int(body[0])|int(body[1])<<8 != len(body)-2 {
+						verdict = "malformed-data-packet"
+						break
+					}
+					pl := body[2:]
+					if got+len(pl) > len(b.sends) || string(b.sends[got:got+len(pl)]) != string(pl) {
+						verdict = "bytes-of-another-tunnel-or-altered"
+						break
+					}
+					got += len(pl)
+					if slow {
+						time.Sleep(200 * time.Microsecond) // the gateway's writes to this client stall now and then
+					}
+				}
+				res[i] = bulkRes{got, verdict}
+			}(i)
+		}
+		wg.Wait()
+		for i := 0; i < nb; i++ {
+			env.count("c07.bulk." + res[i].verdict)
+			env.emit("isolation", fmt.Sprintf("bulk-tunnel-%d-of-%d", i, nb), res[i].verdict)
+			backends[i].close()
+		}
+	}
 	// legacy pairing: IN attaches to the OUT with the same connection id only
 	for k := 0; k < 6; k++ {
 		b := newTagBackend([]byte("<pair-host>"))
@@ -252,7 +358,9 @@ func streamC07(env *runEnv) {
 				} else {
 					obs = "no-answer-on-out"
 				}
-				in.Close()
+			}
+			if in != nil {
+				in.Close() // also when refused: the server drains a refused request's body until the client goes away
 			}
 			out.Close()
 		}
